@@ -82,23 +82,25 @@ def c42_runs(tier):
     for cs, ss in POOL_SIZES:
         # every ordered pair of programs on two threads; every multiset of three programs (quick: of four of them)
         runs.append(McRun(B, 'pool', dict(cs=cs, ss=ss, t0=allp, t1=allp), bound=3 if q else 4, budget=60 if q else 200))
-        three = 'a|ad|aad|ada' if q else allp
-        runs.append(McRun(B, 'pool', dict(cs=cs, ss=ss, t0=three, t1=three, t2=three, sym=1), bound=2 if q else 3, budget=60 if q else 300))
+        sub = 'a|ad|aad|ada'
+        runs.append(McRun(B, 'pool', dict(cs=cs, ss=ss, t0=sub, t1=sub, t2=sub, sym=1), bound=2 if q else 3, budget=60 if q else 400))
+        if not q:
+            runs.append(McRun(B, 'pool', dict(cs=cs, ss=ss, t0=allp, t1=allp, t2=allp, sym=1), bound=2, budget=300))
         runs.append(McRun(B, 'nolock', dict(cs=cs, ss=ss, depth=5 if q else 6), bound=0, budget=60))
     tp = 'a|ad|ada' if q else allp
     runs.append(McRun(B, 'pool', dict(cs=8, ss=16, t0=tp, t1=tp), bound=2, mode='tsan', budget=90 if q else 300))
     runs.append(McRun(B, 'pool', dict(cs=16, ss=64, t0='aaD', t1='ada', t2='ad'), bound=1, mode='tsan', budget=60))
     runs.append(McRun(B, 'pool', dict(cs=8, ss=16, t0='aaD', t1='ada', t2='ad'), bound=1, mode='asan', budget=60))
-    runs.append(McRun(B, 'nolock', dict(cs=8, ss=16, depth=4 if q else 5), bound=0, mode='asan', budget=120))
-    runs.append(McRun(B, 'nolock', dict(cs=16, ss=64, depth=4 if q else 5), bound=0, mode='asan', budget=120))
+    runs.append(McRun(B, 'nolock', dict(cs=8, ss=16, depth=4), bound=0, mode='asan', budget=120))
+    runs.append(McRun(B, 'nolock', dict(cs=16, ss=64, depth=4), bound=0, mode='asan', budget=120))
     runs.sort(key=lambda r: r.mode == 'plain')
     return runs
 
 
 reg('C42', level='model_checking', runs=c42_runs, quick_budget_s=400, thorough_budget_s=1500,
     technique='stateless model checking of the real PoolAllocator (spin lock, slab carving) with logging allocFunc/deallocFunc and a chunk ownership map; exhaustive serial histories of NoLockPoolAllocator via mc::choose',
-    level_text='PoolAllocator: 2 threads x every pair and 3 threads x every multiset (quick: six) of the seven non-trivial programs of <=3 operations over {alloc, dealloc newest, dealloc oldest}, chunk/slab sizes (8,8), (8,16), (16,64), every interleaving with <=3 deviations for two threads (4 thorough) and <=2 for three (3 thorough). NoLockPoolAllocator: every serial history of depth 5 (6 thorough) over {alloc, dealloc newest, dealloc oldest, clear, alloc one slab worth}. Oracle: every chunk lies in a live slab obtained from allocFunc, is disjoint from every live chunk and is not handed out again before its dealloc; contents of live chunks untouched; after clear() allocFunc is not called until every recycled slab has been reused; totalChunkCapacity(); deallocFunc exactly once per slab and only during destruction.',
-    level_note='SC interleavings. The critical sections of PoolAllocator contain no scheduling point, so a locking error does not change any outcome of the serialised plain runs; it is the TSan legs (every pair of programs at (8,16) with <=2 deviations, quick: of three programs; one three-thread shape) that would report it. ASan legs on one concurrent shape and the serial enumeration at depth 4 (5 thorough).',
+    level_text='PoolAllocator: 2 threads x every pair and 3 threads x every multiset of the seven non-trivial programs (quick: of four of them) of <=3 operations over {alloc, dealloc newest, dealloc oldest}, chunk/slab sizes (8,8), (8,16), (16,64), every interleaving with <=3 deviations for two threads (4 thorough) and <=2 for three (3 for the four-program subset in thorough). NoLockPoolAllocator: every serial history of depth 5 (6 thorough) over {alloc, dealloc newest, dealloc oldest, clear, alloc one slab worth}. Oracle: every chunk lies in a live slab obtained from allocFunc, is disjoint from every live chunk and is not handed out again before its dealloc; contents of live chunks untouched; after clear() allocFunc is not called until every recycled slab has been reused; totalChunkCapacity(); deallocFunc exactly once per slab and only during destruction.',
+    level_note='SC interleavings. The critical sections of PoolAllocator contain no scheduling point, so a locking error does not change any outcome of the serialised plain runs; it is the TSan legs (every pair of programs at (8,16) with <=2 deviations, quick: of three programs; one three-thread shape) that would report it. ASan legs on one concurrent shape and the serial enumeration at depth 4.',
     design_ref='DESIGN.md section 4, C42', assumptions=MC_ASSUME, rule=RULE,
     guards=[need_cover('pool_alloc', 'pool_dealloc', 'pool_allocfunc', 'nolock_alloc', 'nolock_dealloc', 'nolock_clear', 'nolock_clear_multi_slab'), need_outcomes(1000)])
 
